@@ -123,7 +123,20 @@ def _sat_conj(conj):
     return r
 
 
+def _canon_atom(a):
+    """one canonical form for 'a starts with the constant c':  eq(a[0..len c], c)  ==  starts_with(a, c)"""
+    if a[0] == 'not':
+        c = _canon_atom(a[1])
+        return a if c is a[1] else ('not', c)
+    if a[0] == 'eq':
+        for x, y in ((a[1], a[2]), (a[2], a[1])):
+            if x[0] == 'bytes' and y[0] == 'slice' and y[2] == T.I(0) and y[3] == T.I(len(x[1])):
+                return ('call', 'starts_with', (y[1], x))
+    return a
+
+
 def _sat_conj0(conj):
+    conj = [_canon_atom(a) for a in conj]
     conj = list(conj) + _derived(conj)
     pos, negs = set(), set()
     ineqs = []      # (dict atom->Fraction, Fraction const) meaning sum + const >= 0
